@@ -573,6 +573,7 @@ func runC01(c *Ctx) {
 }
 
 var c01Canaries = []Canary{
+	{Name: "r5-storage-under-raw-gitdir", ExpectKey: "C01.R13", Edits: []Edit{{File: "fs/fs.go", Find: "fs.LFSStorageDir = filepath.Join(fs.GitStorageDir, lfsdir)", Repl: "fs.LFSStorageDir = filepath.Join(gitdir, lfsdir)"}}},
 	{Name: "r4-same-size-shortcut", ExpectKey: "C01.R11", Edits: []Edit{{File: "lfs/gitfilter_smudge.go", Find: "\t\tif ptr.Size == 0 && stat.Size() == 0 {", Repl: "\t\tif stat.Size() == ptr.Size {"}}},
 	{Name: "r4-untyped-grace-period", ExpectKey: "C01.R12", Edits: []Edit{{File: "fs/cleanup.go", Find: "\t\tif time.Since(info.ModTime()) > time.Hour {", Repl: "\t\tif time.Since(info.ModTime()) > 3600 {"}}},
 	{Name: "second-hasher", ExpectKey: "C01.R1", Edits: []Edit{{File: "lfs/gitfilter_clean.go", Find: "	oid = hex.EncodeToString(oidHash.Sum(nil))", Repl: "	oid = hex.EncodeToString(sha256.New().Sum(nil))"}}},
